@@ -24,7 +24,21 @@
 namespace vf {
 
 struct Violation { std::string key, msg; Violation(const std::string& k, const std::string& m) : key(k), msg(m) {} };
-inline void fail(const std::string& key, const std::string& msg) { throw Violation(key, msg); }
+// A harness shared between properties tags every oracle with the property it decides.  When a check runs the harness for
+// its own property (--owntag Cxx), a failing oracle of another property does not end the transition: it is remembered
+// and the transition goes on to the check's own oracles (the other property's check reports the remembered failure).
+struct Foreign { std::string owntag, key, msg; };
+inline Foreign& foreign() { static Foreign f; return f; }
+inline void fail(const std::string& key, const std::string& msg)
+{
+  Foreign& f = foreign();
+  if(!f.owntag.empty() && key.size() > 3 && key[0] == 'C' && key[1] >= '0' && key[1] <= '9' && key[2] >= '0' && key[2] <= '9' && key[3] == ':' && key.compare(0, 3, f.owntag) != 0)
+  {
+    if(f.key.empty()) { f.key = key; f.msg = msg; }
+    return;
+  }
+  throw Violation(key, msg);
+}
 #define VF_CHECK(cond, key, ...) do { if(!(cond)) ::vf::fail(key, ::vf::fmt(__VA_ARGS__)); } while(0)
 
 typedef std::vector<uint16_t> Hist;
@@ -214,9 +228,11 @@ template<class H, class Cfg> struct Bfs
         try
         {
           o = replay(n.h);
+          foreign().key.clear();
           o->apply(op);
           std::string c = o->canon();
           o->finish();
+          if(!foreign().key.empty()) { Violation v(foreign().key, foreign().msg); foreign().key.clear(); throw v; }
           delete o;
           hit("transitions");
           if(!seen.count(c) && local.insert(c).second)
@@ -452,6 +468,7 @@ template<class H, class Cfg> int bfs_main(int argc, char** argv, const Cfg& cfg,
 {
   Bfs<H, Cfg> b(cfg, label);
   b.maxDepth = (int)argll(argc, argv, "--depth", defDepth);
+  foreign().owntag = arg(argc, argv, "--owntag", "");
   b.nworkers = (int)argll(argc, argv, "--workers", 16);
   b.deadline = argll(argc, argv, "--deadline", 0);
   b.watchdogMs = (int)argll(argc, argv, "--watchdog-ms", 3000);
